@@ -449,6 +449,32 @@ extern "C" void c40_list_short(void)
     listLine(text, len, vf_concretize(vf_range(0, 1, "skip_whitespace")), nlst);
 }
 
+// ---------------------------------------------------------------- the entries of the tiers: one per parser, case-split over the families above
+extern "C" void c40_pasv(void)
+{
+    switch (vf_concretize(vf_range(0, 2, "family"))) {
+    case 0: c40_pasv_host(); break;
+    case 1: c40_pasv_port(); break;
+    default: c40_pasv_huge(); break;
+    }
+}
+extern "C" void c40_eprt(void)
+{
+    switch (vf_concretize(vf_range(0, 2, "family"))) {
+    case 0: c40_eprt_addr(); break;
+    case 1: c40_eprt_port(); break;
+    default: c40_eprt_v6(); break;
+    }
+}
+extern "C" void c40_list(void)
+{
+    switch (vf_concretize(vf_range(0, 2, "family"))) {
+    case 0: c40_list_unix(); break;
+    case 1: c40_list_other(); break;
+    default: c40_list_short(); break;
+    }
+}
+
 // ---------------------------------------------------------------- libc model (bitcode build only): numeric-host getaddrinfo
 // glibc semantics for getaddrinfo(name, NULL, {AI_NUMERICHOST}, &res): IPv4 via inet_aton_exact (1-4 parts, each decimal,
 // octal with a leading 0, or hex with 0x; the last part fills the remaining octets), else IPv6 via inet_pton (no scope id:
